@@ -94,6 +94,12 @@ def native_check(kind, n, env=None, seed=0):
         v0 = ts.KL(st, own_t, space, bases=bases)
         if abs(v0) > 1e-8:
             fails.append(("KL(%s) against own state != 0" % label, float(v0)))
+        # history: the target of an earlier call has been freed and another target sits where it was
+        t2 = C.at_freed_address(lambda: tt.clone(), lambda a: ts.KL(st, a, space, bases=bases), lambda: own_t.clone())
+        if t2 is not None:
+            v1 = ts.KL(st, t2, space, bases=bases)
+            if abs(v1) > 1e-8:
+                fails.append(("KL(%s) against own state, the target tensor sitting at the address of a freed earlier target, != 0" % label, float(v1)))
     # NLL
     M = 5
     samples = torch.tensor(rng.integers(0, 2, size=(M, n)), dtype=torch.double)
